@@ -144,6 +144,75 @@ Proof.
   - apply andb_true_iff in Hn as [A B]. rewrite (IH B). reflexivity.
 Qed.
 
+(* ---- collapsing an ATOMIC template changes nothing at all: the same builder state, as a term ---- *)
+Definition leafc (w : wf) : wf := match cvd w with Some vals => mk_const (wdur w) vals | None => w end.
+Lemma all_const_mk vals : all_const (map (fun cv : chan * oq => (fst cv, CConst (snd cv))) vals) = Some vals.
+Proof. induction vals as [|[c v] r IH]; cbn; [reflexivity|]. rewrite IH. reflexivity. Qed.
+Lemma mk_all_const d chs vals : all_const chs = Some vals -> mk_const d vals = WAtom d chs.
+Proof.
+  unfold mk_const. revert vals. induction chs as [|[c [v|es|a b0]] r IH]; intros vals H; cbn in H; try discriminate.
+  - injection H as <-. reflexivity.
+  - destruct (all_const r) as [v'|] eqn:E; [|discriminate]. injection H as <-. cbn. specialize (IH v' eq_refl).
+    injection IH as IH. rewrite IH. reflexivity.
+Qed.
+Lemma leafc_mk d vals : leafc (mk_const d vals) = mk_const d vals.
+Proof. unfold leafc, mk_const. cbn [cvd wdur]. rewrite all_const_mk. reflexivity. Qed.
+Lemma leafc_atom_global d chs X : with_global (leafc (WAtom d chs)) X = leafc (with_global (WAtom d chs) X).
+Proof.
+  unfold leafc at 1. cbn [cvd wdur]. destruct (all_const chs) as [vals|] eqn:E.
+  - rewrite (mk_all_const d chs vals E). destruct X as [|t X]; cbn [with_global].
+    + unfold leafc. cbn [cvd wdur]. rewrite E. symmetry. apply mk_all_const. exact E.
+    + unfold from_transformation. cbn [cvd]. rewrite E. destruct (chain_callk (t :: X) (map fst vals)).
+      * symmetry. apply leafc_mk.
+      * reflexivity.
+  - destruct X as [|t X]; cbn [with_global].
+    + unfold leafc. cbn [cvd]. rewrite E. reflexivity.
+    + unfold from_transformation. cbn [cvd]. rewrite E. reflexivity.
+Qed.
+
+Lemma create_atom_collapse S i m d chs cm mm X b :
+  create S (internal S) (PAtom i m d chs) cm mm X b = internal [] (PAtom i m d chs) cm mm X b.
+Proof.
+  unfold create. destruct (in_S S (pid (PAtom i m d chs))); [|reflexivity]. cbn [internal].
+  destruct ((d <=? 0) || match chs with [] => true | _ => false end); [reflexivity|].
+  unfold play_atom. cbn [with_global]. set (w0 := WAtom d (map (fun cd : chan * chdef => (cm (fst cd), snd cd)) chs)).
+  fold (leafc w0). fold (leafc (with_global w0 X)).
+  unfold new_subprogram, b_program. rewrite b_ch_append, b_ch_measure. cbn [b_ch b_empty app].
+  rewrite windows_node. cbn [to_waveform Z.of_nat tile].
+  change (1 <? Z.pos (Pos.of_succ_nat 0)) with false. cbv iota.
+  unfold w0. rewrite leafc_atom_global. fold w0. f_equal. f_equal.
+  cbn [cwins windows map app]. rewrite !app_nil_r. replace (0 * body_dur [Leaf (leafc w0)]) with 0 by lia. rewrite map_wshift_0.
+  unfold b_append, b_measure. cbn [b_pend b_empty b_meas b_ch concat map app body_dur fold_right]. rewrite app_nil_r.
+  apply map_wshift_0.
+Qed.
+
+Lemma create_only_atoms S s : (negb (in_S S (pid s)) || is_atom s) = true ->
+  (forall cm mm X b, internal S s cm mm X b = internal [] s cm mm X b) ->
+  forall cm mm X b, create S (internal S) s cm mm X b = create [] (internal []) s cm mm X b.
+Proof.
+  intros A H cm mm X b. destruct (in_S S (pid s)) eqn:E.
+  - cbn in A. destruct s; try discriminate. rewrite create_atom_collapse. reflexivity.
+  - apply create_none_below; auto.
+Qed.
+
+Lemma internal_only_atoms_below S : forall p, only_atoms_below S p = true ->
+  forall cm mm X b, internal S p cm mm X b = internal [] p cm mm X b.
+Proof.
+  intros p. induction p as [i m d chs|i m subs IH|i m n body IH|i ren mren s IH|i ov s IH|i op l sc s IH|i s IH] using pt_ind2;
+    intros Hn cm mm X b; cbn [internal only_atoms_below] in *.
+  - reflexivity.
+  - f_equal. generalize (b_push b (mwins mm m)). rewrite forallb_forall in Hn.
+    induction IH as [|s subs Hs _ IHsubs]; intros b1; cbn [fold_left]; [reflexivity|].
+    assert (Hx := Hn s (or_introl eq_refl)). apply andb_true_iff in Hx as [A B].
+    rewrite (create_only_atoms S s A (Hs B)). apply IHsubs. intros x Hx. apply Hn. right; auto.
+  - apply andb_true_iff in Hn as [A B]. destruct n; [reflexivity|].
+    rewrite (create_only_atoms S body A (IH B)). reflexivity.
+  - apply andb_true_iff in Hn as [A B]. apply (create_only_atoms S s A (IH B)).
+  - apply andb_true_iff in Hn as [A B]. apply (create_only_atoms S s A (IH B)).
+  - apply andb_true_iff in Hn as [A B]. apply (create_only_atoms S s A (IH B)).
+  - apply andb_true_iff in Hn as [A B]. rewrite (IH B). reflexivity.
+Qed.
+
 (* ---- repetition nodes ---- *)
 Lemma tile_perm n p : forall k a b, Permutation a b -> Permutation (tile n p k a) (tile n p k b).
 Proof.
@@ -292,7 +361,7 @@ Section single.
     - cbn [guard_int] in Hg.
       assert (E : forall X' b0, create [] (internal []) s cm mm X' b0 = internal [] s cm mm X' b0) by reflexivity.
       rewrite E. apply create_rel; auto.
-    - cbv zeta. cbn [guard_int] in Hg. rewrite (internal_none_below S s Hg).
+    - cbv zeta. cbn [guard_int] in Hg. rewrite (internal_only_atoms_below S s Hg).
       unfold b_program.
       pose proof (internal_lok [] s cm mm X b_empty (Forall_nil _)) as Hl.
       destruct (b_ch (internal [] s cm mm X b_empty)) eqn:E; [exact Hb|]. rewrite <- E in *.
